@@ -19,6 +19,19 @@ def parse_file(rel):
   return _cache[rel]
 
 
+def module_constants(rel):
+  """Top-level `NAME = <str/int literal>` assignments of a repo module (engine values)."""
+  src, tree = parse_file(rel)
+  out = {}
+  for node in tree.body:
+    if isinstance(node, ast.Assign) and len(node.targets) == 1 and isinstance(node.targets[0], ast.Name) \
+        and isinstance(node.value, ast.Constant) and isinstance(node.value.value, (str, int)) \
+        and not isinstance(node.value.value, bool):
+      v = node.value.value
+      out[node.targets[0].id] = strlit(v) if isinstance(v, str) else VInt(z3.IntVal(v))
+  return out
+
+
 def find_function(tree, qualname):
   """qualname: 'Class.method', 'func', 'outer.<locals>.inner'."""
   parts = [p for p in qualname.split('.') if p != '<locals>']
